@@ -3,6 +3,7 @@ TARGETS = [
     ("verdrv", ["verdrv.cpp"], {}),
     ("permdrv", ["permdrv.cpp"], {}),
     ("treedrv", ["treedrv.cpp"], {"sessions": 16, "epoch_time": 5}),
+    ("concdrv", ["concdrv.cpp"], {"sessions": 16}),
     ("orddrv", ["orddrv.cpp"], {"sessions": 16}),
     ("mapdrv", ["mapdrv.cpp"], {"sessions": 16, "epoch_time": 5}),
 ]
